@@ -16,7 +16,7 @@ from capi import Lib, Buf, Prefs, COpts
 from vlib import Oracle, build_lib
 
 THEOREMS = ["C10_update_fits", "C10_uncompressed_update_fits", "C10_buffered_amounts_reachable",
-            "C10_bound_null_prefs", "C10_flush_end_fit", "C10_frame_fits", "C10_never_overflows",
+            "C10_bound_user_prefs", "C10_bound_null_prefs", "C10_flush_end_fit", "C10_frame_fits", "C10_never_overflows",
             "C10_tmpIn_invariant", "C10_never_overflows_nofix_refuted", "C10_F1_history_now_rejected"]
 CORRESPONDENCE = ["FrameCSizes.step == LZ4F_compressBegin/compressUpdate/uncompressedUpdate/flush/compressEnd "
                   "(return value or error code, block sizes, context fields, extent touched)",
@@ -55,7 +55,7 @@ F1_CASE_C = {"kind": "script", "name": "F1-256K", "prefs": {"bsid": 5, "linked":
 
 def gen_cases(tier, seed):
     rng = random.Random(seed)
-    n = {"quick": 700, "search": 1500, "thorough": 6000}[tier]
+    n = {"quick": 1200, "search": 2000, "thorough": 30000}[tier]
     cases = [dict(F1_CASE), dict(F1_CASE_B), dict(F1_CASE_C), {"kind": "grid", "seed": rng.randrange(1 << 48)}]
     for i in range(n):
         k = rng.choice(["session"] * 6 + ["switch"] * 3 + ["frame"] * 2 + ["nullprefs"])
